@@ -3,7 +3,8 @@
    every theorem therefore holds for every schedule, at every atomic step of install and lookup. *)
 From Coq Require Import List NArith Bool Arith.
 Import ListNotations.
-Require Import MV.Common.Interleave MV.C02.Model MV.C02.Proofs MV.C02.Proofs2 MV.C02.Exec MV.C02.ExecProofs.
+Require Import MV.Common.Interleave MV.C02.Model MV.C02.Proofs MV.C02.Proofs2 MV.C02.Exec MV.C02.ExecProofs
+  MV.C02.ProofsWalk.
 Open Scope N_scope.
 
 Theorem C02_invariants_every_schedule : forall ps sched,
@@ -43,15 +44,11 @@ Theorem C02_before_install_noop : forall ps c, reach ps c ->
   (forall t r s0, In (GDisp t (Some r) s0) (glog (fst c)) -> s0 = 2).
 Proof. exact before_install_noop. Qed.
 
-(* the executable property evaluated by the check, on the model's own run of ANY case (programs +
-   schedule, round-robin tail included): clauses (1)-(4) of Exec.spec_ok hold.  Clause (5), the
-   stability walk over the step trace, is the executable counterpart of
-   C02_stable_after_first_dispatch; it is evaluated on every run and not proved of the model here
-   (so there is no single C02_spec_ok_on_model theorem). *)
-Theorem C02_spec_clauses_on_model_partial : forall c : case,
-  let '(tr, rs, done) := run_case c in
-  (length (oks_of rs) <= 1)%nat /\
-  all2 follows (fst c) rs = true /\
-  loads_ok rs = true /\
-  (done = true -> (exists u p r, nth_error (fst c) u = Some p /\ In (CSet r) p) -> length (oks_of rs) = 1%nat).
-Proof. exact spec_clauses_on_model. Qed.
+(* the executable property evaluated by the check holds on the model's own run of ANY case
+   (any number of threads, any programs, any schedule, out-of-range thread indices and the
+   round-robin tail included), with no hypothesis on the case: all five clauses of Exec.spec_ok --
+   (1) at most one Ok, (2) results follow the thread's own program call by call, (3) every Some
+   load is the winner, (4) exactly one Ok when everybody finished and somebody called set, and
+   (5) the stability walk over the step trace read against the final per-thread results. *)
+Theorem C02_spec_ok_on_model : forall c : case, spec_ok c (run_case c) = true.
+Proof. exact spec_ok_on_model. Qed.
